@@ -165,10 +165,11 @@ type Ctx struct {
 	pathVars   []*T
 	pathVarSet map[int]bool
 	pathUF     []*T
+	varBounds  map[string][2]uint64 // per path: unsigned bounds of variables known from the path condition
 }
 
 func NewCtx() *Ctx {
-	c := &Ctx{tab: map[string]*T{}, vars: map[string]*T{}, ufs: map[string]bool{}, pathVarSet: map[int]bool{}}
+	c := &Ctx{tab: map[string]*T{}, vars: map[string]*T{}, ufs: map[string]bool{}, pathVarSet: map[int]bool{}, varBounds: map[string][2]uint64{}}
 	c.False = c.mk(&T{op: OConst, s: BoolS, c: 0})
 	c.True = c.mk(&T{op: OConst, s: BoolS, c: 1})
 	return c
@@ -178,6 +179,7 @@ func (c *Ctx) ResetPath() {
 	c.pathVars = c.pathVars[:0]
 	c.pathUF = c.pathUF[:0]
 	c.pathVarSet = map[int]bool{}
+	c.varBounds = map[string][2]uint64{}
 }
 
 func (c *Ctx) key(t *T) string {
@@ -406,6 +408,11 @@ func (c *Ctx) Eq(x, y *T) *T {
 	if x.op == OConst && y.op == OConst {
 		return c.Bool(x.c == y.c)
 	}
+	if x.s.K == KBV && (x.op == OAdd || y.op == OAdd || x.op == OMul || y.op == OMul) {
+		if k, ok := c.linDiff(x, y); ok {
+			return c.Bool(k == 0)
+		}
+	}
 	if x.op == OConst {
 		x, y = y, x
 	}
@@ -444,9 +451,9 @@ func (c *Ctx) Eq(x, y *T) *T {
 			}
 			return c.Eq(inner, c.Const(inner.s.W, y.c))
 		}
-		// (v + k1) == k2  -> v == k2-k1
-		if x.op == OAdd && x.a[1].op == OConst {
-			return c.Eq(x.a[0], c.Const(x.s.W, y.c-x.a[1].c))
+		// (sum + k1) == k2  -> sum == k2-k1
+		if x.op == OAdd && x.a[len(x.a)-1].op == OConst {
+			return c.Eq(c.Sub(x, x.a[len(x.a)-1]), c.Const(x.s.W, y.c-x.a[len(x.a)-1].c))
 		}
 	}
 	if x.id > y.id {
@@ -466,87 +473,136 @@ func (c *Ctx) bin(op Op, x, y *T) *T {
 	return c.mk(&T{op: op, s: x.s, a: []*T{x, y}})
 }
 
+// ---- linear normal form -------------------------------------------------
+// Sums are kept as n-ary OAdd nodes: atoms (each possibly OMul(atom, const))
+// sorted by id, constant last. Semantically equal linear expressions over the
+// same atoms are then syntactically identical, which lets comparisons between
+// symbolic offsets fold without the solver.
+
+type linTerm struct {
+	t *T
+	k uint64
+}
+
+// linOf decomposes x into sum of k_i*t_i + c (all mod 2^w).
+func (c *Ctx) linOf(x *T, scale uint64, acc map[int]*linTerm, cst *uint64) {
+	switch x.op {
+	case OConst:
+		*cst += scale * x.c
+		return
+	case OAdd:
+		for _, a := range x.a {
+			c.linOf(a, scale, acc, cst)
+		}
+		return
+	case OSub:
+		c.linOf(x.a[0], scale, acc, cst)
+		c.linOf(x.a[1], -scale, acc, cst)
+		return
+	case OMul:
+		if x.a[1].op == OConst {
+			c.linOf(x.a[0], scale*x.a[1].c, acc, cst)
+			return
+		}
+	}
+	if e, ok := acc[x.id]; ok {
+		e.k += scale
+	} else {
+		acc[x.id] = &linTerm{x, scale}
+	}
+}
+
+func (c *Ctx) fromLin(w int, acc map[int]*linTerm, cst uint64) *T {
+	ids := make([]int, 0, len(acc))
+	for id, e := range acc {
+		if e.k&mask(w) != 0 {
+			ids = append(ids, id)
+		}
+	}
+	sort.Ints(ids)
+	var args []*T
+	for _, id := range ids {
+		e := acc[id]
+		k := e.k & mask(w)
+		if k == 1 {
+			args = append(args, e.t)
+		} else {
+			args = append(args, c.mk(&T{op: OMul, s: BV(w), a: []*T{e.t, c.Const(w, k)}}))
+		}
+	}
+	cst &= mask(w)
+	if len(args) == 0 {
+		return c.Const(w, cst)
+	}
+	if cst != 0 {
+		args = append(args, c.Const(w, cst))
+	}
+	if len(args) == 1 {
+		return args[0]
+	}
+	return c.mk(&T{op: OAdd, s: BV(w), a: args})
+}
+
 func (c *Ctx) Add(x, y *T) *T {
 	w := x.s.W
+	if x.s != y.s || x.s.K != KBV {
+		panic(fmt.Sprintf("bvadd sort mismatch %v %v", x.s, y.s))
+	}
 	if x.op == OConst && y.op == OConst {
 		return c.Const(w, x.c+y.c)
 	}
-	if x.op == OConst {
-		x, y = y, x
+	if y.op == OConst && y.c == 0 {
+		return x
 	}
-	if y.op == OConst {
-		if y.c == 0 {
-			return x
-		}
-		if x.op == OAdd && x.a[1].op == OConst {
-			return c.Add(x.a[0], c.Const(w, x.a[1].c+y.c))
-		}
-		if x.op == OIte && x.a[1].op == OConst && x.a[2].op == OConst {
-			return c.Ite(x.a[0], c.Const(w, x.a[1].c+y.c), c.Const(w, x.a[2].c+y.c))
-		}
-		return c.bin(OAdd, x, y)
+	if x.op == OConst && x.c == 0 {
+		return y
 	}
-	// (a + k1) + (b + k2)
-	if x.op == OAdd && x.a[1].op == OConst {
-		return c.Add(c.Add(x.a[0], y), x.a[1])
+	// ite(c,k1,k2) + k stays an ite of constants
+	if y.op == OConst && x.op == OIte && x.a[1].op == OConst && x.a[2].op == OConst {
+		return c.Ite(x.a[0], c.Const(w, x.a[1].c+y.c), c.Const(w, x.a[2].c+y.c))
 	}
-	if y.op == OAdd && y.a[1].op == OConst {
-		return c.Add(c.Add(x, y.a[0]), y.a[1])
-	}
-	// (a - b) + b = a
-	if x.op == OSub && x.a[1] == y {
-		return x.a[0]
-	}
-	if y.op == OSub && y.a[1] == x {
-		return y.a[0]
-	}
-	if x.id > y.id {
-		x, y = y, x
-	}
-	return c.bin(OAdd, x, y)
+	acc := map[int]*linTerm{}
+	var cst uint64
+	c.linOf(x, 1, acc, &cst)
+	c.linOf(y, 1, acc, &cst)
+	return c.fromLin(w, acc, cst)
 }
 
 func (c *Ctx) Sub(x, y *T) *T {
 	w := x.s.W
+	if x.s != y.s || x.s.K != KBV {
+		panic(fmt.Sprintf("bvsub sort mismatch %v %v", x.s, y.s))
+	}
 	if x == y {
 		return c.Const(w, 0)
 	}
-	if y.op == OConst {
-		return c.Add(x, c.Const(w, -y.c))
+	if y.op == OConst && y.c == 0 {
+		return x
 	}
-	if x.op == OConst && x.c == 0 {
-		return c.Neg(y)
+	if y.op == OConst && x.op == OIte && x.a[1].op == OConst && x.a[2].op == OConst {
+		return c.Ite(x.a[0], c.Const(w, x.a[1].c-y.c), c.Const(w, x.a[2].c-y.c))
 	}
-	// (a + k) - b
-	if x.op == OAdd && x.a[1].op == OConst {
-		return c.Add(c.Sub(x.a[0], y), x.a[1])
-	}
-	// a - (b + k)
-	if y.op == OAdd && y.a[1].op == OConst {
-		return c.Add(c.Sub(x, y.a[0]), c.Const(w, -y.a[1].c))
-	}
-	// (a + b) - a = b
-	if x.op == OAdd {
-		if x.a[0] == y {
-			return x.a[1]
-		}
-		if x.a[1] == y {
-			return x.a[0]
-		}
-	}
-	// a - (a + b) = -b ; a - (a - b) = b
-	if y.op == OSub && y.a[0] == x {
-		return y.a[1]
-	}
-	// (a - b) - a = -b
-	return c.bin(OSub, x, y)
+	acc := map[int]*linTerm{}
+	var cst uint64
+	c.linOf(x, 1, acc, &cst)
+	c.linOf(y, ^uint64(0), acc, &cst)
+	return c.fromLin(w, acc, cst)
 }
 
 func (c *Ctx) Neg(x *T) *T {
-	if x.op == OConst {
-		return c.Const(x.s.W, -x.c)
+	return c.Sub(c.Const(x.s.W, 0), x)
+}
+
+// linDiff returns (k, true) when x - y is the constant k.
+func (c *Ctx) linDiff(x, y *T) (uint64, bool) {
+	if x.s.K != KBV {
+		return 0, false
 	}
-	return c.bin(OSub, c.Const(x.s.W, 0), x)
+	d := c.Sub(x, y)
+	if d.op == OConst {
+		return d.c, true
+	}
+	return 0, false
 }
 
 func (c *Ctx) Mul(x, y *T) *T {
@@ -567,6 +623,14 @@ func (c *Ctx) Mul(x, y *T) *T {
 		if x.op == OIte && x.a[1].op == OConst && x.a[2].op == OConst {
 			return c.Ite(x.a[0], c.Const(w, x.a[1].c*y.c), c.Const(w, x.a[2].c*y.c))
 		}
+		// distribute over sums so that the result stays in linear normal form
+		acc := map[int]*linTerm{}
+		var cst uint64
+		c.linOf(x, y.c, acc, &cst)
+		return c.fromLin(w, acc, cst)
+	}
+	if x.id > y.id {
+		x, y = y, x
 	}
 	return c.bin(OMul, x, y)
 }
@@ -797,11 +861,66 @@ func (c *Ctx) urange(x *T) (lo, hi uint64) {
 			_, h := c.urange(x.a[0])
 			return 0, h >> k
 		}
+	case OVar:
+		if b, ok := c.varBounds[x.name]; ok {
+			return b[0], b[1]
+		}
+	case OMul:
+		if k, ok := x.a[1].ConstU(); ok {
+			l, h := c.urange(x.a[0])
+			if hh, hl := bits.Mul64(h, k); hh == 0 && hl <= mask(w)>>1 {
+				return l * k, hl
+			}
+		}
 	case OAdd:
-		l1, h1 := c.urange(x.a[0])
-		l2, h2 := c.urange(x.a[1])
-		if hs, carry := bits.Add64(h1, h2, 0); carry == 0 && hs <= mask(w) {
-			return l1 + l2, hs
+		// n-ary sum of atoms with (possibly negative) constant coefficients
+		// and a constant; computed in int64 with all magnitudes below 2^60
+		if w != 64 {
+			break
+		}
+		const lim = int64(1) << 60
+		var lo, hi int64
+		okk := true
+		for _, a := range x.a {
+			var k int64 = 1
+			atom := a
+			if a.op == OConst {
+				v := int64(a.c)
+				if v >= lim || v <= -lim {
+					okk = false
+					break
+				}
+				lo += v
+				hi += v
+				continue
+			}
+			if a.op == OMul && a.a[1].op == OConst {
+				k = int64(a.a[1].c)
+				atom = a.a[0]
+				if k >= 1<<20 || k <= -(1<<20) {
+					okk = false
+					break
+				}
+			}
+			l, h := c.urange(atom)
+			if h >= uint64(lim>>20) {
+				okk = false
+				break
+			}
+			if k >= 0 {
+				lo += k * int64(l)
+				hi += k * int64(h)
+			} else {
+				lo += k * int64(h)
+				hi += k * int64(l)
+			}
+			if lo <= -lim || hi >= lim {
+				okk = false
+				break
+			}
+		}
+		if okk && lo >= 0 {
+			return uint64(lo), uint64(hi)
 		}
 	case OURem:
 		if k, ok := x.a[1].ConstU(); ok && k > 0 {
@@ -811,9 +930,35 @@ func (c *Ctx) urange(x *T) (lo, hi uint64) {
 	return 0, mask(w)
 }
 
+// cmpByDiff decides x < y (strict) or x <= y when y - x is a constant and
+// neither side can wrap (both provably below 2^(w-2)).
+func (c *Ctx) cmpByDiff(x, y *T, strict bool) (bool, bool) {
+	if x.op != OAdd && y.op != OAdd {
+		return false, false
+	}
+	k, ok := c.linDiff(y, x)
+	if !ok {
+		return false, false
+	}
+	_, hx := c.urange(x)
+	_, hy := c.urange(y)
+	lim := mask(x.s.W) >> 2
+	if hx > lim || hy > lim {
+		return false, false
+	}
+	d := sext(k, x.s.W)
+	if strict {
+		return d > 0, true
+	}
+	return d >= 0, true
+}
+
 func (c *Ctx) Ult(x, y *T) *T {
 	if x == y {
 		return c.False
+	}
+	if r, ok := c.cmpByDiff(x, y, true); ok {
+		return c.Bool(r)
 	}
 	if x.op == OConst && y.op == OConst {
 		return c.Bool(x.c < y.c)
@@ -835,6 +980,9 @@ func (c *Ctx) Ult(x, y *T) *T {
 func (c *Ctx) Ule(x, y *T) *T {
 	if x == y {
 		return c.True
+	}
+	if r, ok := c.cmpByDiff(x, y, false); ok {
+		return c.Bool(r)
 	}
 	if x.op == OConst && y.op == OConst {
 		return c.Bool(x.c <= y.c)
@@ -864,6 +1012,9 @@ func (c *Ctx) Slt(x, y *T) *T {
 	if x == y {
 		return c.False
 	}
+	if r, ok := c.cmpByDiff(x, y, true); ok {
+		return c.Bool(r)
+	}
 	if x.op == OConst && y.op == OConst {
 		return c.Bool(sext(x.c, x.s.W) < sext(y.c, y.s.W))
 	}
@@ -879,6 +1030,9 @@ func (c *Ctx) Slt(x, y *T) *T {
 func (c *Ctx) Sle(x, y *T) *T {
 	if x == y {
 		return c.True
+	}
+	if r, ok := c.cmpByDiff(x, y, false); ok {
+		return c.Bool(r)
 	}
 	if x.op == OConst && y.op == OConst {
 		return c.Bool(sext(x.c, x.s.W) <= sext(y.c, y.s.W))
@@ -1093,6 +1247,17 @@ func body(t *T) string {
 		fmt.Fprintf(&sb, "((_ fp.to_ubv %d) RTZ %s)", t.p0, ref(t.a[0]))
 	case OFFromBits:
 		fmt.Fprintf(&sb, "((_ to_fp 11 53) %s)", ref(t.a[0]))
+	case OAdd:
+		// n-ary sum printed as nested binary bvadd
+		for i := 0; i < len(t.a)-1; i++ {
+			sb.WriteString("(bvadd ")
+		}
+		sb.WriteString(ref(t.a[0]))
+		for _, a := range t.a[1:] {
+			sb.WriteByte(' ')
+			sb.WriteString(ref(a))
+			sb.WriteByte(')')
+		}
 	default:
 		sb.WriteByte('(')
 		sb.WriteString(opNames[t.op])
@@ -1209,7 +1374,11 @@ func (e *Evaluator) eval(t *T) uint64 {
 	}
 	switch t.op {
 	case OAdd:
-		return x + y
+		sum := uint64(0)
+		for _, a := range t.a {
+			sum += e.Eval(a)
+		}
+		return sum
 	case OSub:
 		return x - y
 	case OMul:
